@@ -50,8 +50,9 @@ def big_inputs(rng, n):
     d2 = pd.DataFrame({"Id_1": ids2[:m] + n // 3, "Id_2": (ids2[:m] + n // 3) % 97, "Me_1": rng_np.integers(-1000, 1000, m) / 4.0, "Me_2": rng_np.integers(0, 500, m) / 2.0})
     d1.loc[d1.index % 11 == 0, "Me_1"] = None
     # values of very different magnitude: a floating-point sum would depend on the order of accumulation (thread count)
-    mag = np.where(ids % 7 == 0, 1e14, np.where(ids % 7 == 3, -1e14, 0.0))
-    d5 = pd.DataFrame({"Id_1": ids, "Id_2": ids % 97, "Me_3": mag + rng_np.integers(1, 1000, n) / 8.0})
+    # (±1e15 + thousandths: partial sums exceed 2^53, so every accumulation order rounds differently; exact in DECIMAL)
+    mag = np.where(ids % 7 == 0, 1e15, np.where(ids % 7 == 3, -1e15, 0.0))
+    d5 = pd.DataFrame({"Id_1": ids, "Id_2": ids % 97, "Me_3": mag + rng_np.integers(1, 1000, n) / 1000.0})
     comps = [("Id_1", "Integer", "Identifier", False), ("Id_2", "Integer", "Identifier", False), ("Me_1", "Number", "Measure", True), ("Me_2", "Number", "Measure", True)]
     comps5 = comps[:2] + [("Me_3", "Number", "Measure", True)]
     return (engine.structures(engine.ds_struct("DS_1", comps), engine.ds_struct("DS_2", comps), engine.ds_struct("DS_5", comps5)),
